@@ -20,7 +20,7 @@ var c12Space = mkSpace("attribute-query", []fieldDim{
 	{"Issuer", []string{"", "b", "unregistered", "absent"}},
 	{"Sign", []string{"", "env-sha256", "env-sha1"}},
 	{"Signer", []string{"", "attacker", "sp-b"}},
-	{"Forge", []string{"", "sv-flip", "dv-flip", "attr-edit", "subject-edit", "sig-stripped"}},
+	{"Forge", []string{"", "sv-flip", "dv-flip", "attr-edit", "subject-edit", "sig-stripped", "xsw-dup-signed-first", "xsw-dup-evil-first", "xsw-two-bodies"}},
 	{"KeyInfo", []string{"", "no"}},
 	{"Dest", []string{"", "absent", "sso-location", "foreign", "prefixed-advertised", "prefixed-foreign"}},
 	{"Subject", []string{"", "bob", "unknown", "absent"}},
@@ -50,7 +50,7 @@ func c12Valid(p aqP) bool {
 	if p.Sign != "" && strings.HasPrefix(p.Dest, "prefixed") {
 		return false
 	}
-	if p.Forge == "subject-edit" && p.Subject == "absent" {
+	if (p.Forge == "subject-edit" || strings.HasPrefix(p.Forge, "xsw-")) && p.Subject == "absent" {
 		return false
 	}
 	return true
@@ -259,7 +259,7 @@ func init() { Registry["C12"] = runC12 }
 func runC12(ctx Ctx) int {
 	world.PinClock()
 	run := ev.NewRun("C12")
-	run.Rule = "every assignment of 14 attribute-query dimensions (Issuer, signature none/valid/bit-flipped/edited/foreign key/stripped, Destination variants incl. namespace-prefixed, subject, 13 requested-attribute list shapes incl. duplicates and wrong formats, 7 user-record shapes, serialisation, issuer/endpoint configuration) with <= k deviations (k=2 quick, 3 thorough) plus the full product requested-list x user-record; one execution = fresh provider + one real SOAP request; reply decoded with xt and verified with two independent XML-DSig verifiers"
+	run.Rule = "every assignment of 14 attribute-query dimensions (Issuer, signature none/valid/bit-flipped/edited/foreign key/stripped, Destination variants incl. namespace-prefixed, subject, 13 requested-attribute list shapes incl. duplicates and wrong formats, 7 user-record shapes, serialisation, issuer/endpoint configuration) with <= k deviations (k=3 quick, 4 thorough) plus the full product requested-list x user-record; one execution = fresh provider + one real SOAP request; reply decoded with xt and verified with two independent XML-DSig verifiers"
 	run.Assume = []string{"user data here is plain ASCII except one '&' value; metacharacters in signed data are C04's alphabet (signature clause skipped for such records)"}
 	if ctx.Replay != "" {
 		var p aqP
@@ -275,9 +275,9 @@ func runC12(ctx Ctx) int {
 		}
 		return 0
 	}
-	k := 2
+	k := 3
 	if run.Tier == "thorough" {
-		k = 3
+		k = 4
 	}
 	type item struct {
 		p      aqP
